@@ -4,6 +4,20 @@ import json, os
 ROOT = os.path.dirname(os.path.abspath(__file__))
 
 CLAIMED = {
+ 'C03': dict(
+    category='other',
+    text='Bounded-exhaustive symbolic execution of the real loader/metamodel code. Join: for 8 key schemas (single keys of every core type, composite '
+         '(id,string) and (integer,id) keys, one referential attribute formalising two associations) EVERY assignment of pool key values (unset, null id, '
+         'empty string, matching, duplicate, dangling) to 2 referred and 2 (3) referring rows is loaded and build_metamodel runs under CrossHair; navigation in '
+         'both directions must equal an independent nested-loop join with the documented null rule, referential reads must agree and be stripped from the '
+         'instance dict. API route: the same rows created with MetaModel.new (referred first) or cloned from the loaded model give the same links. '
+         'Order/partition: statement permutations of three models (explicit schema with reflexive association and index; association class; inferred schema) '
+         'and every partition into up to three parts given through input(), files, a directory tree and a zip archive yield the same signature modulo instance order. '
+         '"Confirmed over all paths" per condition; the 8! x 5 permutation space is sharded (quick: 3 seed-rotated shards of 1024, thorough: all).',
+    design_ref='DESIGN.md section 5, C03',
+    note='key values are hashed by the index join and therefore case-split from small pools; model text is realised and parsed by PLY outside the tracer '
+         '(the scanner is not part of this claim); populations for the API route stay within the association multiplicity.',
+    technique='bounded symbolic execution of the real code (CrossHair + z3), exhaustive over key assignments / permutation shards'),
  'C10': dict(
     category='other',
     text='Bounded-exhaustive symbolic execution of the real attribute/class-name handling: every history of 2 (3) operations out of '
